@@ -90,15 +90,23 @@ def config_inc(d):
 
 
 def prune(flavor, keep):
+    """Remove stale cache dirs of this flavor (other tree hashes). Dirs touched in the last 90 minutes are
+    kept: another check may be running from them (e.g. a mutant worktree via VERIF_REPO)."""
+    now = time.time()
     for d in glob.glob(os.path.join(CACHE, flavor + "-*")):
         if d != keep:
-            shutil.rmtree(d, ignore_errors=True)
+            try:
+                if now - os.path.getmtime(d) > 90 * 60:
+                    shutil.rmtree(d, ignore_errors=True)
+            except OSError:
+                pass
 
 
 def build_flavor(flavor, log=sys.stderr):
     d = flavor_dir(flavor)
     lib = os.path.join(d, "libtins.a")
     if os.path.exists(lib) and os.path.exists(os.path.join(d, "ok")):
+        os.utime(d, None)
         return d
     prune(flavor, d)
     os.makedirs(os.path.join(d, "obj"), exist_ok=True)
@@ -144,6 +152,7 @@ def gen_with_probe(log=sys.stderr):
     d = gen_dir()
     inc_file = os.path.join(d, "gen_tins.inc")
     if os.path.exists(os.path.join(d, "ok")):
+        os.utime(d, None)
         return d
     prune("gen", d)
     os.makedirs(d, exist_ok=True)
